@@ -209,6 +209,10 @@ C12_history_grows(o) == o.cmd.name # "compact" => IsPrefix(o.logpre, o.logpost)
 (* C14 - epic references.                                                  *)
 (***************************************************************************)
 EpicRefOK(v, t) == v[t].epic = "" \/ v[t].epic \in VEpics(v)
+\* ... so every live task remains visible under its epic and in the list of
+\* everything (o.hidden: what the driver found missing from `show --json <epic>`
+\* children / from the human `list --all`)
+C14_visible(o) == o.readable => o.hidden = <<>>
 C14_ref(o) == \A t \in VTasks(o.post) :
                  ~EpicRefOK(o.post, t) =>
                     (t \in DOMAIN o.pre /\ o.pre[t].epic = o.post[t].epic /\ ~EpicRefOK(o.pre, t)
@@ -290,7 +294,9 @@ C16_reads(o) ==
 (***************************************************************************)
 (* C11 - plan.                                                             *)
 (***************************************************************************)
-C11_invalid_refused(o) == o.cmd.name = "plan" /\ ~PlanValid(o.cmd.doc) =>
+\* (several JSON values, or anything else after the document, make the payload invalid)
+OneValue(c) == "trail" \notin DOMAIN c \/ c.trail = "ws"
+C11_invalid_refused(o) == o.cmd.name = "plan" /\ (~PlanValid(o.cmd.doc) \/ ~OneValue(o.cmd)) =>
                             Failed(o) /\ o.post = o.pre /\ o.logpost = o.logpre
 C11_adds_exactly(o) ==
   LET c == o.cmd r == o.reply doc == c.doc n == Len(doc.tasks)
